@@ -114,6 +114,12 @@ def skipL : List TSRange → Length → Nat × Length × Bool
 
 def BYTE_ORDER_MARK : Int := 0xFEFF
 
+/-- The tail of `ts_lexer__do_advance` when still inside a range: re-fetch if the position left the cached
+chunk, then decode the look-ahead. -/
+def Lexer.refill (read : Read) (l : Lexer) : Lexer :=
+  let l := if l.pos.bytes < l.chunkStart || l.pos.bytes ≥ l.chunkStart + l.chunk.length then l.getChunk read else l
+  l.getLookahead read
+
 /-- `ts_lexer__do_advance`. -/
 def Lexer.doAdvance (read : Read) (l : Lexer) (skip : Bool) : Lexer :=
   let l :=
@@ -130,9 +136,7 @@ def Lexer.doAdvance (read : Read) (l : Lexer) (skip : Bool) : Lexer :=
   let (k, pos, inRange) := skipL (l.ranges.toList.drop l.idx) l.pos
   let l := { l with idx := l.idx + k, pos := pos }
   let l := if skip then { l with tokStart := l.pos } else l
-  if inRange then
-    let l := if l.pos.bytes < l.chunkStart || l.pos.bytes ≥ l.chunkStart + l.chunk.length then l.getChunk read else l
-    l.getLookahead read
+  if inRange then l.refill read
   else
     let l := l.clearChunk
     { l with lookahead := 0, laSize := 1 }
